@@ -152,3 +152,60 @@ Qed.
 
 Theorem sorted_text_jperm j j' : jperm j j' -> sorted_text j = sorted_text j'.
 Proof. intros H. unfold sorted_text. rewrite (jsort_jperm j j' H). reflexivity. Qed.
+
+(* ---------- writing what was read back: the sorting is idempotent ---------- *)
+Lemma map_ins (A B : Type) (g : str * A -> str * B) (a : str * A) (l : list (str * A)) :
+  (forall x, fst (g x) = fst x) -> map g (ins_member a l) = ins_member (g a) (map g l).
+Proof.
+  intros Hg. induction l as [|c r IH]; [reflexivity|].
+  cbn [ins_member map]. rewrite !Hg. destruct (str_ltb (fst a) (fst c)); cbn [map]; [reflexivity|].
+  rewrite IH. reflexivity.
+Qed.
+
+Lemma map_sort_members (A B : Type) (g : str * A -> str * B) (l : list (str * A)) :
+  (forall x, fst (g x) = fst x) -> map g (sort_members l) = sort_members (map g l).
+Proof.
+  intros Hg. induction l as [|a l IH]; [reflexivity|].
+  cbn [sort_members fold_right map]. rewrite map_ins by exact Hg. unfold sort_members in IH. rewrite IH. reflexivity.
+Qed.
+
+Lemma sort_members_of_sorted (A : Type) (l : list (str * A)) : Sorted (key_lt A) l -> sort_members l = l.
+Proof.
+  induction l as [|a l IH]; intros Hs; [reflexivity|].
+  inversion Hs as [|x xs Hs' Hhd]; subst.
+  cbn [sort_members fold_right]. unfold sort_members in IH. rewrite (IH Hs').
+  destruct l as [|c r]; [reflexivity|].
+  cbn [ins_member]. inversion Hhd as [|y ys Hac]; subst. unfold key_lt in Hac. rewrite Hac. reflexivity.
+Qed.
+
+Theorem sort_members_idem (A : Type) (l : list (str * A)) :
+  NoDup (keys A l) -> sort_members (sort_members l) = sort_members l.
+Proof. intros Hnd. apply sort_members_of_sorted. apply sort_members_sorted. exact Hnd. Qed.
+
+(* a tree as a Python value gives it: no object has two members with the same key *)
+Fixpoint jnodup (j : json) : Prop :=
+  match j with
+  | JArr l => (fix go (l : list json) : Prop := match l with [] => True | x :: r => jnodup x /\ go r end) l
+  | JObj l => NoDup (keys json l) /\
+              (fix go (l : list (str * json)) : Prop := match l with [] => True | kx :: r => jnodup (snd kx) /\ go r end) l
+  | _ => True
+  end.
+
+Theorem jsort_idem : forall j, jnodup j -> jsort (jsort j) = jsort j.
+Proof.
+  fix IH 1. intros j Hj. destruct j as [| b | z | m e | x | l | l]; try reflexivity.
+  - cbn [jsort]. f_equal. rewrite map_map. cbn [jnodup] in Hj.
+    induction l as [|a l IHl]; [reflexivity|]. destruct Hj as [Ha Hl].
+    cbn [map]. rewrite (IH a Ha), (IHl Hl). reflexivity.
+  - cbn [jsort]. f_equal. cbn [jnodup] in Hj. destruct Hj as [Hnd Hl].
+    set (f := fun kv : str * json => (fst kv, jsort (snd kv))).
+    rewrite (map_sort_members json json f (map f l)) by (intros [k v]; reflexivity).
+    assert (map f (map f l) = map f l) as Hff.
+    { clear Hnd. induction l as [|a l IHl]; [reflexivity|]. destruct Hl as [Ha Hl].
+      cbn [map]. rewrite (IHl Hl). f_equal. unfold f. cbn [fst snd]. rewrite (IH (snd a) Ha). reflexivity. }
+    rewrite Hff. apply sort_members_idem. unfold f. rewrite keys_map_snd. exact Hnd.
+Qed.
+
+(* a line that was read back and is written again (a second checkpoint behind the first) is the same line *)
+Theorem sorted_text_idem j : jnodup j -> sorted_text (jsort j) = sorted_text j.
+Proof. intros Hj. unfold sorted_text. rewrite (jsort_idem j Hj). reflexivity. Qed.
